@@ -129,6 +129,35 @@ def g_rules(p: Project, rep: Report):
                 roles.append(f"?{sorted(src)}")
         ok = roles == ["cli", "config", "defaults"]
         rep.check("G-R1", "merge_config:ChainMap(cli, config, defaults)", ok, f"sources are chained as {roles}: a lower-ranking source outranks a higher one" if not ok else "", gloc(p, c))
+    # the OFX Home layer is consulted whenever a higher source names an institution id - whatever else is known
+    from . import paths as _PT
+
+    mcf = flat(p, OFXGET, mc, keep=("merge_from_ofxhome", "read_config", "extractns"))
+    try:
+        mpaths = _PT.enumerate_paths(mcf, None, Expander(mcf))
+    except AnalysisError as e:
+        mpaths = None
+        rep.note(f"G-R1 undecided: merge_config paths ({e})")
+    if mpaths is not None:
+        mcfg = mpaths.cfg
+        look = {n.id for n in mcfg.nodes if n.stmt is not None and n.kind not in ("join", "handlers") and any(text(c.func) == "merge_from_ofxhome" for c in n.calls())}
+        if not look:
+            rep.note("G-R1 undecided: merge_config no longer calls merge_from_ofxhome")
+        else:
+            bad = None
+            decided = 0
+            for q in mpaths:
+                ats = sorted({a for c, _w in q.conds for a in c.atoms() if a.replace('"', "'").startswith("'ofxhome' in ")})
+                if not ats or any(i in look for i in q.nodes):
+                    continue
+                decided += 1
+                for a in ats:
+                    if _PT.implies(q.conds, _PT.atom(a, False)) is False:
+                        bad = (a, _PT.simple_conds(q.conds))
+            if decided:
+                rep.check("G-R1", "merge_config:ofxhome-consulted-whenever-configured", bad is None, f"a path skips the OFX Home lookup although `{bad[0]}` may hold (path taken when {bad[1]}): org / fid / brokerid that only OFX Home knows fall through to the built-in defaults as soon as a URL is known from elsewhere" if bad else "", gloc(p, mc))
+            else:
+                rep.note("G-R1 undecided: no path of merge_config decides on `'ofxhome' in <source>`")
     # cli layer = only what was actually given (None filtered)
     cli_layer_rule(p, rep, rule="G-R1")
     # ofxhome insert position
